@@ -48,6 +48,11 @@ def rows_for(tier, wd):
     vlib.tlc_ok(r4, "MC_KdTree rows")
     rows += vlib.tlc_prints(r4["out"])
     kd.append(("rows", r4))
+    # one integer attribute of a sequential cloud (module IntAttr): every header combination x symbol lists x wrap bounds x declared types
+    r5 = vlib.tlc("MC_IntAttr", cfg="MC_IntAttr_%s.cfg" % tier, specdir=MC, workers=1, timeout=1200)
+    vlib.tlc_ok(r5, "MC_IntAttr")
+    rows += vlib.tlc_prints(r5["out"])
+    kd.append(("intattr", r5))
     r["kd"] = kd
     f = os.path.join(wd, "eb_rows.ndjson")
     vlib.write_ndjson(f, rows)
@@ -67,7 +72,7 @@ def run(v, tier, seed, wd, prop="C02"):
     v.add_tlc("MC_SeqDecoder_" + tier, r["seq"])
     v.add_tlc("MC_LegacyKd", r["lkd"])
     for cfg, g in r["kd"]:
-        v.add_tlc("MC_KdTree_" + cfg, g)
+        v.add_tlc(("MC_KdTree_" + cfg) if cfg != "intattr" else "MC_IntAttr", g)
         if g["violated"]:
             v.violation({"what": "MC_KdTree (%s): the transcribed kd-tree coder does not round-trip, or a served value pushes a stack index / axis out of range" % cfg,
                          "tlc": g["out"][-1500:]}, tags={"kind": "model_kdtree"})
